@@ -1028,6 +1028,7 @@ impl Family for TlvFamily {
         let mut slots: Vec<GenSlot> = Vec::new();
         let nmsgs = rng.range(1, if thorough { 8 } else { 5 });
         let limits = rng.chance(1, 4); // this case is about the 2^31 decision logic
+        let mut big = !limits && rng.chance(1, 40); // one value long enough for offsets beyond 16 bits
         for _ in 0..nmsgs {
             let ctor = *rng.pick(&["new", "new", "sorted", "slice"]);
             let vt = if limits { "h" } else { *rng.pick(&["cow", "ref", "str", "h", "h", "h"]) };
@@ -1060,7 +1061,12 @@ impl Family for TlvFamily {
                     items.push((tag, format!("f:{}", len), len, true, 0));
                 } else {
                     let kind = if vt == "ref" { "b" } else { *rng.pick(&["b", "o"]) };
-                    let v = gen_value(rng, vt == "str");
+                    let mut v = gen_value(rng, vt == "str");
+                    if big {
+                        big = false;
+                        let fill = if vt == "str" { 0x41 } else { 0xFE };
+                        v.resize(rng.range(65530, 65545) as usize, fill);
+                    }
                     items.push((tag, format!("{}:{}", kind, to_hex(&v)), v.len() as u128, false, 0));
                 }
             }
